@@ -98,7 +98,7 @@ def write_unit_c(workdir, name, includes, enum_text, bodies, extra=''):
         f.write(enum_text)
         for inc in includes:
             f.write('#include "%s"\n' % inc)
-        f.write('nix_exc_t nix_exc; size_t ghost_k; size_t ghost_j; bool ghost_ticks_ascending;\ndouble g_w0, g_w1, g_w2, g_w3, g_wp; size_t g_wn; int g_wm;\n')
+        f.write('nix_exc_t nix_exc; size_t ghost_k; size_t ghost_j; bool ghost_ticks_ascending;\ndouble g_w0, g_w1, g_w2, g_w3, g_wp; size_t g_wn; int g_wm; size_t g_slen;\n')
         for b in bodies:
             f.write(b + '\n')
         f.write(extra)
